@@ -225,6 +225,11 @@ pub fn for_each_table_text(tier: Tier, seed: u64, f: &mut dyn FnMut(&str)) {
             }
         }
     }
+    // recursion to within two levels of the deepest frame the machine allows, for frames of 1..41 slots whose
+    // LAST slot is read plainly and by a fused `local op literal` at the bottom and on the way back
+    for text in deep_frame_texts() {
+        f(&text);
+    }
     crate::compose::for_each(2, &mut |_, prog| {
         f(&printer::program(prog));
         true
@@ -238,12 +243,40 @@ pub fn for_each_table_text(tier: Tier, seed: u64, f: &mut dyn FnMut(&str)) {
     }
 }
 
+/// Programs `functie diep(n) { F-1 locals; als n == 0 { antwoord last + 1 } antwoord diep(n - 1) + (last + 1) - last } diep(d)`
+/// for d within two of 65535 / F.
+pub fn deep_frame_texts() -> Vec<String> {
+    let mut out = Vec::new();
+    for slots in [1usize, 2, 3, 5, 8, 10, 11, 17, 41] {
+        let mut body = String::new();
+        let mut prev = "n".to_string();
+        for l in 1..slots {
+            body.push_str(&format!("stel v{l} = {prev} + 1; "));
+            prev = format!("v{l}");
+        }
+        for delta in -2i64..=2 {
+            let d = 65_535 / slots as i64 + delta;
+            out.push(format!("functie diep(n) {{ {body}als n == 0 {{ antwoord {prev} + 1 }} antwoord diep(n - 1) + ({prev} + 1) - {prev} }} diep({d})"));
+        }
+    }
+    out
+}
+
+/// The instruction budget of a table entry (the deep-frame programs run for a few million instructions).
+fn table_budget(text: &str) -> u64 {
+    if text.starts_with("functie diep(") {
+        20_000_000
+    } else {
+        100_000
+    }
+}
+
 /// `nlmc table16 <tier> <seed> <file>`: writes "text<TAB>outcome" for every table entry in this build.
 pub fn table_dump_main(tier: Tier, seed: u64, path: &str) {
     crate::outcome::install_quiet_panic_hook();
     let mut out = String::new();
     for_each_table_text(tier, seed, &mut |text| {
-        let o = sched::solo(text, 100_000);
+        let o = sched::solo(text, table_budget(text));
         out.push_str(&format!("{}\t{}\n", text.replace('\n', "\\n").replace('\t', "\\t"), render(&o).replace('\n', "\\n")));
     });
     let _ = std::fs::write(path, out);
@@ -350,6 +383,10 @@ fn near_identical(sh: &mut Shard, profile: &str, only_len: Option<usize>) {
 fn run(sh: &mut Shard) {
     let tier = sh.cfg.tier;
     let profile = if cfg!(debug_assertions) { "dev" } else { "rel" };
+    // (d') the interpreter's own command-line program, unoptimised and release, on the long-run ladders
+    if profile == "rel" {
+        crate::cliprof::run_family(sh, "configurations");
+    }
     // solo outcomes from fresh release-build processes
     let mut solos: Vec<String> = Vec::new();
     for i in 0..batch().len() {
@@ -427,8 +464,10 @@ fn run(sh: &mut Shard) {
     // closed form), of every length class from 100 bytes to 128 KiB, evaluated one after the other on this
     // thread; consecutive texts have the SAME length and differ in ONE byte, at every one of 64 consecutive
     // positions (all residues of any sampling stride up to 64) in the middle, and at both ends
+    // (every worker advances the case index here, whoever runs the case: the workers' index spaces must stay
+    // aligned, or the partition of the profile table below has holes)
+    sh.mine();
     if sh.shard == 1 % sh.nshards {
-        sh.mine();
         sh.begin(&|| "near-identical long texts".to_string());
         sh.count(&format!("near-identical:{profile}"));
         near_identical(sh, profile, None);
@@ -437,8 +476,8 @@ fn run(sh: &mut Shard) {
     // (a') one long history: thousands of programs that each bring fresh names, numbers and strings (whatever
     // table, cache or counter a change might keep between evaluations gets filled and wrapped), the batch
     // re-evaluated at several points of it
+    sh.mine();
     if sh.shard == 0 {
-        sh.mine();
         sh.begin(&|| "long history: 6000 programs with fresh names and constants, the batch re-evaluated every 500".to_string());
         sh.count(&format!("long-history:{profile}"));
         'long: for k in 0..6000u64 {
@@ -477,8 +516,14 @@ fn run(sh: &mut Shard) {
             }
             sh.begin(&|| text.clone());
             sh.count(&format!("table:{profile}"));
-            let o = sched::solo(&text, 100_000);
+            let o = sched::solo(&text, table_budget(&text));
             sh.pair(&(text.as_str(), render(&o)));
+            if std::env::var_os("NLMC_PAIRS_DEBUG").is_some() {
+                use std::io::Write;
+                if let Ok(mut fh) = std::fs::OpenOptions::new().create(true).append(true).open(format!("/verif/.target/tmp/pairs-{profile}-{}.txt", sh.shard)) {
+                    let _ = writeln!(fh, "{}\t{}", text.replace('\n', "\\n"), render(&o).replace('\n', "\\n"));
+                }
+            }
         }
     }
     // (b) schedules
@@ -589,6 +634,10 @@ fn run(sh: &mut Shard) {
 }
 
 fn replay(sh: &mut Shard, case: &Value) {
+    if case.get("cli").is_some() {
+        crate::cliprof::replay(sh, "configurations", case);
+        return;
+    }
     sh.mine();
     if let Some(len) = case["near_identical_measured"]["length"].as_u64() {
         near_identical_measured(sh, if cfg!(debug_assertions) { "dev" } else { "rel" }, Some(len as usize));
